@@ -16,19 +16,19 @@ PROP = {
     "trusted_base": [KERNEL, TABLES, HARNESS, NOAX,
                      "modelled, not verified against the Go source: coq/Sem/Opt.v (optimizer.Optimize, the Optimize traversals of parser2.go, const-let propagation of parseLet) is hand-written after funcGen/optimizer.go and parser2.go and tied to the code by the correspondence run (Gen.run on the model-optimized AST = implementation with the optimizer) and by the regenerated flags (C02_flags_match)",
                      "the handler flags of cfgflags (toBool, list, map, closure, method handlers present) are not read from the code; value.New() installs all of them",
-                     "call counts of impure functions are observed on the implementation only (harness functions tick/ptick); the Coq model has no effect log"],
+                     "the effect log of the Coq model (coq/Sem/Trace.v: calls of host functions with their arguments, results from an oracle) is a model of what the harness counters observe; the counters themselves are read on the implementation only"],
     "assumptions": ["floats: only exactly representable results are compared; a regrouped float chain that is inexact is `unsupported` in the model and counted as skipped",
                     "programs that redeclare a name inside one function body, random/randomConst are excluded as in C01",
                     "value instance only (the bool and float instances of the generic generator are C19's business)"],
     "residue": "the theorem asks for first-order constants in the SOURCE program (side_ok): programs with host-registered closure constants are outside; built-ins outside coq/Sem/Lib.v are left alone by the optimizer model (the run skips those trees); the conclusion is up to the value relation on results that contain closures (equality on first-order outcomes)",
-    "correspondence_only": ["exact per-evaluation call counts of impure functions with and without the optimizer, and no impure call during Generate (Go-side oracle with counters; the theorems prove that the folding rules never run a call of a function not flagged pure)",
+    "correspondence_only": ["the implementation's counters of the harness functions tick/ptick (per evaluation with and without the optimizer, and 0 during Generate) are compared by the Go oracle: this ties the events of the trace model (C02_optimize_preserves_trace, C02_optimize_preserves_call_counts, C02_generate_runs_no_host_call_*) to the code; programs in which a callback of a built-in method makes a host call are outside the trace model (Unsup there) and rest on the Go oracle alone",
                             "AST equality between the model's optimizer and the real one is not compared node by node; the model is tied through the outcomes of the optimized program",
                             "built-ins outside the pool of coq/Sem/Lib.v: the optimizer model leaves them alone (counted as not followable)"],
 }
 
 MANIFEST = {
-    "text": "Coq model of the constant-folding optimizer (Sem/Opt.v: every rule of optimizer.Optimize, the child-first traversal with its omissions, const-let propagation) with theorems for all programs: every optimized form simulates the original (optimized_form_sound), the optimizer is sound for ALL programs with first-order source constants and for every configuration passing the decidable test cfg_ok - the flags of value.New(), the flags regenerated from the tree, the strict variant - with the outcome relation as conclusion and plain equality on first-order outcomes (C02_optimize_sound_cfg, C02_optimize_sound_all, C02_optimize_sound_generated, C02_optimize_sound_first_order_exact); a constant computed at Generate time may be a closure: C01's exec_sim relates it to the reference value and the value relation absorbs that relation (generate_time_*_related, computed_constant_stands_for_value), folding never runs a function that is not flagged pure, refutations for the flags of the pinned commit (= & | * commutative, method rule without closure-field check); table obligation C02_flags_match: the flags regenerated from the current value.New() equal the flags the theorems are about. Correspondence on every run: outcome with optimizer = outcome without = reference semantics on the generator's own tree; Gen.run on the model-optimized AST = implementation with the optimizer; counters of an impure host function: none during Generate, equal per evaluation with and without optimizer. Corpus: every operator x every pair of constant kinds x the three chain shapes.",
+    "text": "Coq model of the constant-folding optimizer (Sem/Opt.v: every rule of optimizer.Optimize, the child-first traversal with its omissions, const-let propagation) with theorems for all programs: every optimized form simulates the original (optimized_form_sound), the optimizer is sound for ALL programs with first-order source constants and for every configuration passing the decidable test cfg_ok - the flags of value.New(), the flags regenerated from the tree, the strict variant - with the outcome relation as conclusion and plain equality on first-order outcomes (C02_optimize_sound_cfg, C02_optimize_sound_all, C02_optimize_sound_generated, C02_optimize_sound_first_order_exact); a constant computed at Generate time may be a closure: C01's exec_sim relates it to the reference value and the value relation absorbs that relation (generate_time_*_related, computed_constant_stands_for_value), folding never runs a function that is not flagged pure, a trace semantics (Sem/Trace.v: the reference evaluator with a log of host-function calls, erasing to Ref.eval) in which the optimized program has the same events - same functions, order, number, related arguments, also before an error or a panic - as the original (C02_optimize_preserves_trace, C02_optimize_preserves_call_counts, exact on first-order arguments) and in which everything the optimizer evaluates at Generate time has an empty trace under every oracle (C02_generate_runs_no_host_call_*), refutations for the flags of the pinned commit (= & | * commutative, method rule without closure-field check); table obligation C02_flags_match: the flags regenerated from the current value.New() equal the flags the theorems are about. Correspondence on every run: outcome with optimizer = outcome without = reference semantics on the generator's own tree; Gen.run on the model-optimized AST = implementation with the optimizer; counters of an impure host function: none during Generate, equal per evaluation with and without optimizer. Corpus: every operator x every pair of constant kinds x the three chain shapes.",
     "design_ref": "DESIGN.md section 6 C02",
-    "note": "Call counts of impure functions are established on the implementation by the run, not by a theorem (no effect log in the model). The soundness theorem needs no per-program test any more; the run counts the dumped ASTs inside its hypothesis (side_ok) and, for comparison, those that met the side condition of the previous version (strict = non-strict optimizer). Trusted: Coq kernel + VM, table hooks, the Go harness.",
+    "note": "Call counts of impure functions: theorem in the trace model (host oracle must respect the value relation; callbacks of built-in methods that make host calls are outside the model) + the Go oracle with counters on the implementation. The soundness theorem needs no per-program test any more; the run counts the dumped ASTs inside its hypothesis (side_ok) and, for comparison, those that met the side condition of the previous version (strict = non-strict optimizer). Trusted: Coq kernel + VM, table hooks, the Go harness.",
     "technique": "Coq model + proofs over regenerated flags + vm_compute three-way correspondence run with effect counters",
 }
